@@ -118,11 +118,11 @@ CLAIMED = {
         'text': 'Deductive proof (Verus), incremental: 40 parser / tokenizer functions are under proof with the contract "total" - parse_term, make_term, parse_arguments, check_quotes, parse_complex, parse_functor_terms, validate_complex, parse_query, '
                 'parse_function, parse_subgoal, parse_operator_goal, make_goal, make_goal_no_args, get_left_and_right, split_complex_term, indices_of_parentheses, check_infix, check_arithmetic_infix, equal_escape, index_of_neck, parse_rule '
                 '(plus the error formatters). For every text below 2^31 characters Verus discharges: every index and slice in range, no arithmetic overflow, every unwrap on Some, every panic! unreachable, every loop with a decreases clause, '
-                'and every callee precondition (e.g. an infix position always leaves room for its operand). parse_linked_list and link_front are under proof too (total; the parsed list is well formed). make_logic_var too, and the tokenizer (tokenize, group_tokens, group_and_tokens, group_or_tokens, token_tree_to_goal, generate_goal with the token helpers): the grouping functions are shown to build only trees that token_tree_to_goal accepts, so its three panic! sites and the two in the grouping functions are unreachable - under ONE assumed clause about the first text of every token group (listed in the evidence). Trusted: make_query; '
-                'termination of the mutual recursion between the parsers is argued (strictly shorter texts) but not machine-checked.',
-        'note': 'Trusted: R5 (char/String conversion macros as functions), R10 (&s[1..] wrapped with its char-boundary precondition), R11 (starts_with/ends_with as total external functions), assumed specs of trim, parse::<i64/f64>, to_vec, String::len, Chars::last (T3); T1, T4, T5.',
+                'and every callee precondition (e.g. an infix position always leaves room for its operand). parse_linked_list and link_front are under proof too (total; the parsed list is well formed). make_logic_var too, and the tokenizer (tokenize, group_tokens, group_and_tokens, group_or_tokens, token_tree_to_goal, generate_goal with the token helpers): the grouping functions are shown to build only trees that token_tree_to_goal accepts, so its three panic! sites and the two in the grouping functions are unreachable; the fact this rests on - every opening-parenthesis token of tokenize is followed by an operand, and the list starts with one - is proved from an invariant over the pending text (it used to be an assumed clause). '
+                'TERMINATION is machine-checked: the mutual recursion of the term and goal parsers (decreases (length of the text, rank of the function)), group_tokens (tokens.len() - index), group_and_tokens / token_tree_to_goal (structural), and every loop. Trusted: make_query (its renaming is proved under C10).',
+        'note': 'Trusted: R5 (char/String conversion macros as functions), R10 (&s[1..] wrapped with its char-boundary precondition), R11 (starts_with/ends_with/contains as total external functions), assumed specs of trim (a function; contiguous sub-sequence), parse::<i64/f64>, to_vec, String::len, Chars::last (T3); white space is none of the characters the tokenizer gives a meaning to (T3); a &str is determined by its characters (T2); T1, T4, T5.',
         'technique': 'contract-based deductive verification (Verus) of extracted real code',
-        'design_ref': 'DESIGN.md 5/C18',
+        'design_ref': 'DESIGN.md 5/C18, 8.8, 8.16, 8.17',
     },
     'C21': {
         'text': 'Deductive proof (Verus) on the verbatim bodies of separate_rules, strip_comments, check_last_char (and the helpers is_decimal_point, trim_error_line): '
